@@ -287,8 +287,8 @@ func checkField(path, term, kind string, v interface{}, doc map[string]interface
 		var order []string
 		for _, e := range l {
 			p := asList(e)
-			if p[0].(string) == "" {
-				continue // an entry whose stored reference is empty has no key to go under: the writer leaves it out of a map
+			if p[0].(string) == "" || p[1].(string) == "" {
+				continue // an entry without a reference has no key to go under, an entry without a text nothing to say: left out of a map
 			}
 			tag := strings.ToValidUTF8(p[0].(string), "\ufffd")
 			if _, ok := first[tag]; !ok {
@@ -571,6 +571,10 @@ func init() {
 			{[]interface{}{"-", "one"}, []interface{}{"", "two"}},
 			{[]interface{}{"", "one"}, []interface{}{"en", "two"}},
 			{[]interface{}{"", "one"}, []interface{}{"", "two"}},
+			// several entries of which exactly one has a text (the term stays <term>Map, the value a map)
+			{[]interface{}{"en", ""}, []interface{}{"fr", "salut"}},
+			{[]interface{}{"fr", "salut"}, []interface{}{"en", ""}},
+			{[]interface{}{"-", ""}, []interface{}{"en", "x"}, []interface{}{"fr", ""}},
 			{[]interface{}{"fr", "a"}, []interface{}{"fr", "b"}, []interface{}{"fr", "c"}},
 		} {
 			for _, fld := range []string{"Name", "Summary", "Content"} {
